@@ -934,7 +934,7 @@ public:
               const Stmt *CC = canon(C);
               // `if (a || b)`: the block ending in the IfStmt evaluates only the right-most leaf of
               // the logical expression; the logical operator itself is not a CFG element
-              if (CC && !isa<BinaryOperator>(T)) {
+              if (CC) {
                 while (auto *LB = dyn_cast<BinaryOperator>(CC)) {
                   if (!LB->isLogicalOp()) break;
                   CC = canon(LB->getRHS());
